@@ -73,9 +73,17 @@ def variants(rng, pk, dsb_text, hist):
             label = "pcapng %s-endian, if_tsresol %s%s%s" % ("little" if endian == "<" else "big", resol, ", extra blocks" if extra else "", "")
             use_pb = rng.randrange(4) == 0
             out.append((label + (", obsolete packet blocks" if use_pb else ""), synth.pcapng(pkts, endian=endian, tsresol=resol, dsbs_before=[dsb_text] if dsb_text else (), extra_blocks=extra, use_pb=use_pb), False))
-    # a time offset: ticks relative to if_tsoffset
+    # a time offset: ticks relative to if_tsoffset (a few seconds at most, so that the three roundings stay far below half a microsecond);
+    # with other resolutions too, and with the two options in either order
     base = min(t for t, _ in us) // 10 ** 6 - 5 if us else 0
     out.append(("pcapng little-endian, if_tsoffset %d" % base, synth.pcapng([(t - base * 10 ** 6, f) for t, f in us], tsoffset=base, dsbs_before=[dsb_text] if dsb_text else ()), False))
+    for resol, endian, first in ((9, "<", True), (7, ">", False), (9, ">", True), (3, "<", True)):
+        k = 10 ** resol
+        if any(((t - base * 10 ** 6) * k) % 10 ** 6 for t, _ in us):
+            continue
+        out.append(("pcapng %s-endian, if_tsresol %d, if_tsoffset %d, %s first" % ("little" if endian == "<" else "big", resol, base, "offset" if first else "resolution"),
+                    synth.pcapng([((t - base * 10 ** 6) * k // 10 ** 6, f) for t, f in us], endian=endian, tsresol=resol, tsoffset=base, offset_first=first,
+                                 dsbs_before=[dsb_text] if dsb_text else ()), False))
     if not dsb_text:
         for endian in "<>":
             for nano in (False, True):
@@ -215,6 +223,18 @@ def main():
             mt = m.ask("legacyus", "1" if nano else "0", zhex(sec), zhex(u * 1000 if nano else u))
             if mt != "Some " + zhex(sec * 10 ** 6 + u) and got == sec * 10 ** 6 + u:
                 disagreements.append({"what": "legacy_us %s %d %d" % (nano, sec, u), "model": mt, "impl": str(got)})
+    # instants with a sub-microsecond part: the same record as nanosecond legacy pcap, as pcapng 10^-9 and as pcapng 10^-12 must be
+    # exported with the same time (the three readers round the same rational number)
+    for j in range(n_time // 2):
+        sec = rng.choice([rng.randrange(1, 2 ** 31), rng.randrange(17 * 10 ** 8, 18 * 10 ** 8), rng.randrange(2 ** 31, 2251799813)])
+        nsec = rng.choice([rng.randrange(10 ** 9), 1000 * rng.randrange(10 ** 6) + rng.choice([499, 500, 501, 999, 1])])
+        a = impl_legacy_us(impl, sec, nsec, True)
+        b = impl_time_us(impl, sec * 10 ** 9 + nsec, 9, None)
+        c = impl_time_us(impl, (sec * 10 ** 9 + nsec) * 1000, 12, None) if (sec * 10 ** 9 + nsec) * 1000 < 2 ** 64 else b
+        hist["time_submicrosecond"] += 1
+        ck.case(("time-s", sec, nsec))
+        if not (a == b == c):
+            fails.append({"what": "time stamp: %d s + %d ns is exported as %s from a nanosecond legacy pcap, %s from a pcapng with if_tsresol 9, %s with if_tsresol 12" % (sec, nsec, a, b, c), "args": []})
     if m:
         ck.cov["oracle_queries"] = m.queries
         ck.cov["model_runs_skipped"] = m.skipped
